@@ -91,6 +91,22 @@ def run(ctx):
                 r["children"].reverse()
             f["rels"].reverse()
         cases.append(t)
+    # letter-case twins: the same model with the case of every letter of every name swapped (equal-comparing constraints
+    # where equality ignores case): what was written for one must not show in the text of the other — the workers go
+    # through the cases in both directions
+    def swapcase(m):
+        def node(n):
+            if n is None:
+                return None
+            d, l, r = n
+            return ((d[0], d[1].swapcase()) if d[0] == "s" else d, node(l), node(r))
+        t = copy.deepcopy(m)
+        for f in spec.spec_features(t["root"]):
+            f["name"] = f["name"].swapcase()
+        t["ctcs"] = [(n, node(a)) for n, a in t["ctcs"]]
+        return t
+    for m in [c for c in cases[:14] if c["ctcs"]][:4]:
+        cases.append(swapcase(m))
     sc = fmt.Scratch()
     try:
         cpath = os.path.join(sc.dir, "cases.json")
